@@ -44,6 +44,7 @@ RULE += (' Also: an awaitable fill value of zip_longest over several padding rou
 RULE += (' Also: sources that are awaitable and asynchronously iterable (every tool but any_iter).')
 RULE += (' Also: synchronous mappings whose values are awaitable jobs handed to tools as (synchronous) iterables: no suspension, no job awaited.')
 RULE += (' Also: all / any / min / tuple / sorted / nsmallest / dropwhile / filterfalse / filter(None) / chain.from_iterable / iter(callable, sentinel) / scoped_iter / borrow / anext over large synchronous inputs and over items that are awaitable jobs.')
+RULE += (' Also: comparisons (==, <) of user keys answering with awaitable objects: only their truth value is used (iter with sentinel, groupby, max, sorted).')
 ASSUMPTIONS = ["a loop that checks identity of every token and reply is at least as strict as any real event loop",
                "C functions called from asyncstdlib code are visible to sys.monitoring CALL events"]
 EXHAUSTIVE = {"quick": False, "thorough": False}
@@ -138,6 +139,8 @@ def cases(tier, seed, shard, nshards):
         for tool in ("map", "map2", "starmap", "filter", "takewhile", "accumulate", "reduce", "iter", "exitstack", "sync",
                      "enter_payload", "enter_generator", "zip_longest_payload_fill"):
             yield {"kind": "generator-callable", "tool": tool}
+        for tool in ("iter_sentinel", "groupby", "groupby_nokey", "max_key", "sorted_key"):
+            yield {"kind": "awaitable-comparison", "tool": tool}
         for tool in MAPPING_TOOLS:
             for shape in ("dict", "mapping_class", "first_plain", "empty"):
                 yield {"kind": "mapping-argument", "tool": tool, "shape": shape}
@@ -1246,6 +1249,74 @@ def run_generator_callables(case, stats):
     return {"violations": viols, "evals": 1, "sigs": [("genfunc", tool)]}
 
 
+def run_awaitable_comparison(case, stats):
+    """Comparisons of user objects (``==``, ``<``) that answer with an object which happens to be awaitable (a deferred
+    expression, a handle): the answer's TRUTH VALUE is what a tool needs - it is not the user's awaitable to run."""
+    from ..tools import AwaitablePayload
+    _ensure_monitor(stats)
+    CTX.reset()
+    tool = case["tool"]
+
+    class Deferred(AwaitablePayload):
+        def __init__(self, k, truth):
+            super().__init__(k)
+            self.truth = truth
+
+        def __bool__(self):
+            return self.truth
+
+    class Key:
+        __hash__ = None
+
+        def __init__(self, v):
+            self.v = v
+
+        def __eq__(self, other):
+            return Deferred(("eq", self.v), isinstance(other, Key) and self.v == other.v)
+
+        def __ne__(self, other):
+            return Deferred(("ne", self.v), not (isinstance(other, Key) and self.v == other.v))
+
+        def __lt__(self, other):
+            return Deferred(("lt", self.v), self.v < other.v)
+
+        def __gt__(self, other):
+            return Deferred(("gt", self.v), self.v > other.v)
+
+    async def main():
+        if tool == "iter_sentinel":
+            feed = iter([Key(1), Key(2), Key(3), Key(0)])
+            got = await A.list(A.iter(lambda: next(feed), Key(3)))
+            return [k.v for k in got] == [1, 2]
+        if tool in ("groupby", "groupby_nokey"):
+            data = [Key(1), Key(1), Key(2), Key(2), Key(1)]
+            gb = A.groupby(data) if tool == "groupby_nokey" else A.groupby(data, key=lambda k: Key(k.v))
+            sizes = []
+            async for _, group in gb:
+                sizes.append(len(await A.list(group)))
+            return sizes == [2, 2, 1]
+        if tool == "max_key":
+            return (await A.max([1, 3, 2], key=Key)) == 3
+        if tool == "sorted_key":
+            return (await A.sorted([2, 3, 1], key=Key)) == [1, 2, 3]
+        raise ValueError(tool)
+
+    viols = []
+    coro = main()
+    try:
+        ok = run_sync(coro)
+    except BaseException as exc:  # noqa: BLE001
+        ok = f"{type(exc).__name__}: {exc}"
+    if ok is not True:
+        viols.append({"key": f"{tool}/result-with-awaitable-comparison-answers", "msg": f"{tool}: gave {ok!r}"})
+    if CTX.foreign or CTX.suspensions:
+        viols.append({"key": f"{tool}/suspends-with-sync-arguments",
+                      "msg": f"{tool} over keys whose comparisons answer with awaitable objects: {CTX.foreign[:2]} suspensions={CTX.suspensions}"})
+    stats["awaitable_comparison_runs"] += 1
+    _drain_asyncio(viols, f"awaitable-comparison {tool}")
+    return {"violations": viols, "evals": 1, "sigs": [("awaitable-comparison", tool)]}
+
+
 MAPPING_TOOLS = ("dict", "list", "tuple", "set", "sorted", "min", "max", "enumerate", "zip", "any", "all", "map_str", "tee",
                  "batched", "chain", "islice", "any_iter", "sum_keys", "reduce_first", "accumulate")
 
@@ -1410,6 +1481,8 @@ def run_case(case, stats: Counter):
         return run_tee_pending_close(case, stats)
     if kind == "mapping-argument":
         return run_mapping_argument(case, stats)
+    if kind == "awaitable-comparison":
+        return run_awaitable_comparison(case, stats)
     if kind == "pending-read-close":
         return run_pending_read_close(case, stats)
     if kind == "close-tokens":
